@@ -26,13 +26,15 @@ META = dict(
     level="other",
     stubs=["scipy.signal.lfilter(b, a, x, axis=0) with concrete (b, a) and symbolic x -> direct-form difference equation in Python (validated against SciPy on every run)",
            "ndarray.max/min/mean of symbolic arrays -> If-chains / exact sums (no forking); np.sqrt -> non-negative root symbol with its defining square",
-           "np.empty/np.zeros -> object arrays"],
-    outside=["rolloff resampling (fft / lanczos / prefilter / linear): accuracy of resampling", "srs_frf, vrs, srsmap (interp1d, FFT, complex magnitudes)",
+           "np.empty/np.zeros -> object arrays",
+           "srs_frf: scipy.interpolate.interp1d (linear, fill 0) with concrete abscissae -> piecewise-linear combination of the symbolic ordinates; abs() of a complex symbolic value -> "
+           "non-negative root symbol compared with other roots through the squares"],
+    outside=["rolloff resampling (fft / lanczos / prefilter / linear): accuracy of resampling", "vrs, srsmap (FFT, Miles estimate)", "srs_frf beyond 2-4 FRF lines and 1-2 analysis frequencies; srs_frq=None, scale_by_Q_only, getresp",
              "the coefficient formulas between grid points (exp/sin/cos of Q, w, dT)", "parallel execution (C09)"],
     assumptions=["signal samples in [-1, 1]", "for ic in {zero, mshift} the input is taken as zero up to one sample before the first sample and linear in between "
                  "(what a ramp-invariant filter started from rest means); for ic in {shift, steady} the (shifted) input starts at zero at t = 0",
                  "total/residual windows (one appended cycle of ceil(sr/fn) samples) only at sr/fn <= 10", "tolerance: 1e-9 relative to the 1-norm of the reference linear form for sr/fn <= 100, 1e-6 for sr/fn = 2000 (conditioning of the ramp-invariant coefficients)"],
-    reach_required=["hist-primary", "hist-total", "hist-residual", "ic-steady", "ic-mshift", "fn-zero", "peak-stat", "identities", "packaging"],
+    reach_required=["frf", "frf-complex", "hist-primary", "hist-total", "hist-residual", "ic-steady", "ic-mshift", "fn-zero", "peak-stat", "identities", "packaging"],
     trusted_base=["z3 5.1", "mpmath reference (van-Loan exponential, 80 digits)", "lfilter model (validated against SciPy each run)"],
 )
 
@@ -518,6 +520,197 @@ def job_ident(Q, sr, freqs, N):
     return res
 
 
+# ---------------------------------------------------------------------------
+# srs_frf: frequencies and Q concrete, the FRF symbolic (magnitudes, or complex values)
+
+class SqRoot(S.SymRoot):
+    """non-negative root; compared with another root through the squares"""
+    __slots__ = ()
+
+    def _c2(s, o, f):
+        return S.SymB(f(s.of, o.of)) if isinstance(o, S.SymRoot) else None
+
+    def __ge__(s, o):
+        r = s._c2(o, lambda a, b: a >= b)
+        return r if r is not None else S.SymR.__ge__(s, o)
+
+    def __gt__(s, o):
+        r = s._c2(o, lambda a, b: a > b)
+        return r if r is not None else S.SymR.__gt__(s, o)
+
+    def __le__(s, o):
+        r = s._c2(o, lambda a, b: a <= b)
+        return r if r is not None else S.SymR.__le__(s, o)
+
+    def __lt__(s, o):
+        r = s._c2(o, lambda a, b: a < b)
+        return r if r is not None else S.SymR.__lt__(s, o)
+
+    __hash__ = S.SymR.__hash__
+
+
+class NonNeg(S.SymR):
+    __slots__ = ()
+
+    def __abs__(s):
+        return s
+
+    __hash__ = S.SymR.__hash__
+
+
+def sq_abs(x):
+    if isinstance(x, np.ndarray) and x.dtype == object:
+        out = np.empty(x.shape, dtype=object)
+        for idx in np.ndindex(*x.shape):
+            out[idx] = sq_abs(x[idx])
+        return out
+    if isinstance(x, S.SymC):
+        r = S.eng().fresh("cabs")
+        sq = x.re * x.re + x.im * x.im
+        S.eng().assume(z3.And(r >= 0, r * r == sq))
+        return SqRoot(r, sq)
+    return abs(x)
+
+
+class NPF(NPProxy):
+    def abs(self, a):
+        return sq_abs(a)
+
+
+class _Interp1d:
+    """scipy.interpolate.interp1d(x, y, axis=0, bounds_error=False, fill_value=0, assume_sorted=True), linear, concrete x"""
+
+    def __init__(self, x, y, axis=0, bounds_error=False, fill_value=0, assume_sorted=True, kind="linear"):
+        assert axis == 0 and kind == "linear" and not bounds_error
+        self.x, self.y, self.fill = np.asarray(x, float), y, fill_value
+
+    def __call__(self, xn):
+        xn = np.asarray(xn, float)
+        out = np.empty((len(xn),) + self.y.shape[1:], dtype=object)
+        for k, v in enumerate(xn):
+            if v < self.x[0] or v > self.x[-1]:
+                out[k] = self.fill
+                continue
+            i = min(max(int(np.searchsorted(self.x, v, side="right")) - 1, 0), len(self.x) - 2)
+            w = Fraction(float(v) - float(self.x[i])) / Fraction(float(self.x[i + 1]) - float(self.x[i]))
+            out[k] = self.y[i] + (self.y[i + 1] - self.y[i]) * w
+        return out
+
+
+class _InterpMod:
+    interp1d = _Interp1d
+
+
+def _frf_ref(frf_frq, srs_frq, Q):
+    """(analysis frequencies, exact transmissibility |1 + w^2/H| per (srs frequency, analysis frequency)) in 40 digits"""
+    import mpmath as mp
+    mp.mp.dps = 40
+    p_peak = Q * np.sqrt(np.sqrt(1 + 2 / Q ** 2) - 1)
+    ff = np.sort(np.hstack((frf_frq, p_peak * np.array(srs_frq))))
+    pv = np.ones(len(ff), bool)
+    pv[1:] = np.diff(ff) > 1e-5
+    ff = ff[pv]
+    T = []
+    for fn_ in srs_frq:
+        ws = 2 * mp.pi * mp.mpf(float(fn_))
+        ks, bs = ws ** 2, ws / mp.mpf(Q)
+        T.append([mp.sqrt((ks ** 2 + (bs * 2 * mp.pi * mp.mpf(float(v))) ** 2) / ((ks - (2 * mp.pi * mp.mpf(float(v))) ** 2) ** 2 + (bs * 2 * mp.pi * mp.mpf(float(v))) ** 2)) for v in ff])
+    return ff, T
+
+
+def frf_fn(frf_frq, srs_frq, Q, cplx):
+    def fn(eng):
+        import mpmath as mp
+        S.set_engine(eng)
+        import pyyeti.srs as srs
+        f = rebind([srs.srs_frf], dict(np=NPF(), interp=_InterpMod, abs=sq_abs))["srs_frf"]
+        n = len(frf_frq)
+        info = dict(frf_frq=list(frf_frq), srs_frq=list(srs_frq), Q=Q, cplx=cplx)
+        if cplx:
+            re, im = [z3.Real("re%d" % i) for i in range(n)], [z3.Real("im%d" % i) for i in range(n)]
+            for v in re + im:
+                eng.assume(z3.And(v >= -1, v <= 1))
+            frf = np.array([S.SymC(re[i], im[i]) for i in range(n)], dtype=object)
+            mag = []
+            for i in range(n):
+                r = eng.fresh("mag")
+                eng.assume(z3.And(r >= 0, r * r == re[i] * re[i] + im[i] * im[i]))
+                mag.append(r)
+        else:
+            mag = [z3.Real("m%d" % i) for i in range(n)]
+            for v in mag:
+                eng.assume(z3.And(v >= 0, v <= 1))
+            frf = np.array([NonNeg(v) for v in mag], dtype=object)
+        try:
+            shk = f(frf, np.array(frf_frq, float), np.array(srs_frq, float), Q)
+        except E.Inconclusive:
+            raise
+        except Exception as ex:
+            import traceback
+            return [E.Obl("srs_frf raises %r (%s)" % (ex, traceback.format_exc()[-300:]), False, info=info)]
+        eng.tag("frf-complex" if cplx else "frf")
+        ff, T = _frf_ref(frf_frq, srs_frq, Q)
+
+        def at(v):      # magnitude of the FRF, linearly interpolated between its lines, zero outside
+            if v < frf_frq[0] or v > frf_frq[-1]:
+                return z3.RealVal(0)
+            i = max(0, min(int(np.searchsorted(frf_frq, v, side="right")) - 1, n - 2))
+            w = Fraction(float(v) - float(frf_frq[i])) / Fraction(float(frf_frq[i + 1]) - float(frf_frq[i]))
+            return mag[i] + (mag[i + 1] - mag[i]) * z3.RealVal(w)
+        eps = z3.RealVal("1e-9")
+        obls = [E.Obl("srs_frf: one value per analysis frequency", np.shape(shk) == (len(srs_frq), 1), info=info)]
+        if np.shape(shk) != (len(srs_frq), 1):
+            return obls
+        for k in range(len(srs_frq)):
+            cands = [z3.RealVal(Fraction(int(t * mp.mpf(10) ** 30), 10 ** 30)) * at(v) for t, v in zip(T[k], ff)]
+            g = shk[k, 0]
+            g2 = g.of if isinstance(g, S.SymRoot) else S.lift(g) * S.lift(g)
+            for c, v in zip(cands, ff):
+                obls.append(E.Obl("srs_frf[%g Hz] is at least the oscillator's response to the FRF magnitude at %.6g Hz" % (srs_frq[k], v), g2 >= c * c * (1 - eps), info=info))
+            obls.append(E.Obl("srs_frf[%g Hz] is the largest of |H(f/fn)| interp(|FRF|)(f) over the analysis frequencies" % srs_frq[k], z3.Or([g2 <= c * c * (1 + eps) for c in cands]), info=info))
+        return obls
+    return fn
+
+
+def replay_frf(p):
+    import pyyeti.srs as srs
+    mdl = p["model"]
+    n = len(p["frf_frq"])
+    g = lambda k: float(Fraction(mdl.get(k, 0) or 0))
+    if p["cplx"]:
+        frf = np.array([complex(g("re%d" % i), g("im%d" % i)) for i in range(n)])
+    else:
+        frf = np.array([g("m%d" % i) for i in range(n)])
+    got = srs.srs_frf(frf, np.array(p["frf_frq"]), np.array(p["srs_frq"]), p["Q"])
+    ff, T = _frf_ref(p["frf_frq"], p["srs_frq"], p["Q"])
+    m = np.interp(ff, p["frf_frq"], np.abs(frf), left=0, right=0)
+    msgs = []
+    for k, fn_ in enumerate(p["srs_frq"]):
+        want = max(float(t) * mv for t, mv in zip(T[k], m))
+        if abs(got[k, 0] - want) > 1e-6 * max(want, 1e-12):
+            msgs.append("srs_frf(%s at %s Hz, Q=%g)[%g Hz] = %r, max over f of |H(f/fn)| interp(|frf|)(f) = %r" % (frf.tolist(), p["frf_frq"], p["Q"], fn_, got[k, 0], want))
+    if msgs:
+        return True, "; ".join(msgs[:2])
+    return False, "srs_frf fine on the real code"
+
+
+def job_frf(frf_frq, srs_frq, Q, cplx):
+    eng = E.Engine(obl_timeout_ms=120000, tactic="qfnra-nlsat")
+    eng.obl_mode = "each"
+    res = eng.explore(frf_fn(frf_frq, srs_frq, Q, cplx), max_cex=3)
+    res["note"] = "srs_frf lines=%s srs_frq=%s Q=%g complex=%s" % (frf_frq, srs_frq, Q, cplx)
+
+    def payload(c):
+        d = dict((c.get("info") or [{}])[0])
+        d["model"] = c["model"]
+        return d
+    H.triage(res, "frf", replay_frf, payload)
+    return res
+
+
+REPLAY["frf"] = replay_frf
+
+
 def job_validate():
     bad = validate_lfilter()
     r = dict(paths=0, obligations=0, unsat=0, note="lfilter model vs scipy.signal.lfilter on 20 random filters: %d mismatches" % bad)
@@ -552,6 +745,11 @@ def jobs(tier, seed):
             if ch:
                 out.append(H.Job("hist-Q%g-r%g-%d" % (Q, ratio, ci), job_hist, Q, sr, freqs, 3 if ratio <= 100 else 2, 2 if ratio <= 10 else 1, ch, tol, weight=len(ch) * (10 if ratio > 10 else 3)))
     out.append(H.Job("identities", job_ident, 10, sr, (100.0, 250.0), 3, weight=30))
+    fr = [([10.0, 20.0], [12.0], 10, False), ([10.0, 20.0], [12.0], 10, True), ([5.0, 10.0, 20.0], [8.0], 25, True), ([5.0, 10.0, 20.0], [4.0, 15.0], 25, False)]
+    if not q:
+        fr += [([10.0, 20.0], [15.0, 30.0], 5, True), ([5.0, 10.0, 20.0], [8.0, 12.0], 10, True), ([5.0, 10.0, 20.0, 40.0], [25.0], 25, False)]
+    for a in fr:
+        out.append(H.Job("frf-%s-%s-%g-%s" % a, job_frf, *a, weight=20))
     if not q:
         out.append(H.Job("identities-2", job_ident, 0.6, sr, (40.0, 400.0), 4, weight=60))
     return out
@@ -561,4 +759,4 @@ def extra_coverage(results):
     import pyyeti.srs as m
     fns = [m.srs, m._process_ic, m._add_one_cycle, m._process_inputs, m.absacce, m.relacce, m.reldisp, m.relvelo, m.pvelo, m.pacce,
            m._absmeth, m._posmeth, m._possmeth, m._negmeth, m._negsmeth, m._rmsmeth]
-    return dict(functions_encoded=[H.fn_id(f) for f in fns])
+    return dict(functions_encoded=[H.fn_id(f) for f in fns + [m.srs_frf]])
